@@ -31,6 +31,7 @@ PT = EXC + "PoolTimeout"
 
 ASSIGN = POOL + "._assign_requests_to_connections"
 CLOSECONNS = POOL + "._close_connections"
+RELEASE = POOL + "._release_unused_connection"
 
 
 def F(c, ref, key, old=False):
@@ -490,6 +491,64 @@ def register(reg):
         def exc_checks(self, c, exc):
             return []
 
+    # ================================================================== _release_unused_connection (fix for p30)
+    @reg.contract
+    class ReleaseUnused(Contract):
+        """C05 / C07, from the property: a request that leaves without ever having driven the connection the pool assigned
+        to it must not strand that connection.  A newly created connection is neither available, idle nor closed, and
+        nobody but the request it was created for will ever establish it (design_probes/p30)."""
+        key = RELEASE
+        props = ("C05", "C07", "C04", "C06", "C08", "C15")
+        suspends = False
+        result_kind = "seq:ref:" + CI
+        params = {"pool_request": "ref:" + PR}
+        modifies = ("Pool._connections",)
+        raises = []
+        raises_props = ("C15", "C08")
+
+        def setup(self, c):
+            c.st.ghost["list_elem_kind"] = {"*": "ref:" + CI}
+
+        def ensures(self, c):
+            s = c.self
+            pr = c.args["pool_request"]
+            conn = c.old(pr, "PR.connection")
+            old = conn_seq(c, old=True)
+            cur = conn_seq(c)
+            r = c.eng.coerce(c.st, c.result, "seq:ref:" + CI).t
+            usable = z3.Or(F(c, conn, "CI.avail"), F(c, conn, "CI.idle"), F(c, conn, "CI.closed"))
+            released = r == z3.Unit(conn.t)
+            return [
+                ("returns_nothing_or_exactly_the_requests_connection", ("C06", "C05"), z3.Or(r == z3.Empty(RefSeqS), z3.And(conn.t != 0, released))),
+                ("pool_untouched_when_nothing_is_released", ("C04", "C05"), z3.Implies(r == z3.Empty(RefSeqS), cur == old)),
+                ("released_connection_gives_its_slot_back", ("C05", "C04", "C07"), z3.Implies(released, z3.And(z3.Contains(old, z3.Unit(conn.t)), z3.Length(cur) == z3.Length(old) - 1))),
+                ("only_a_connection_nobody_can_use_is_released", ("C05", "C09", "C01"), z3.Implies(released, z3.Not(usable))),
+                ("a_connection_another_queued_request_holds_is_never_released", ("C05", "C01", "C12"), z3.Implies(released, z3.Not(
+                    exists_in(F(c, s, "Pool._requests"), z3.Const("rx", IntS), z3.Select(c.eng.heap_arr(c.st, "PR.connection", IntS), z3.Const("rx", IntS)) == conn.t)))),
+            ]
+
+        def checks(self, c):
+            # the property-level clause: afterwards the request's connection is gone from the pool (handed over for
+            # closing), or somebody can still use it (available / idle), or it is closed (the pass drops it), or
+            # another request of the queue holds it (and will drive it)
+            s = c.self
+            pr = c.args["pool_request"]
+            conn = c.old(pr, "PR.connection")
+            r = c.eng.coerce(c.st, c.result, "seq:ref:" + CI).t
+            usable = z3.Or(F(c, conn, "CI.avail"), F(c, conn, "CI.idle"), F(c, conn, "CI.closed"))
+            x = z3.Const("rx", IntS)
+            held_by_other = exists_in(F(c, s, "Pool._requests"), x, z3.Select(c.eng.heap_arr(c.st, "PR.connection", IntS), x) == conn.t)
+            removed = [e for e in c.events("list.remove") if e.data["target"] == "Pool._connections"]
+            handed_over = z3.And(z3.BoolVal(len(removed) == 1), r == z3.Unit(conn.t), removed[0].data["value"].t == conn.t) if removed else z3.BoolVal(False)
+            not_pooled = z3.Not(z3.Contains(conn_seq(c, old=True), z3.Unit(conn.t)))
+            return [
+                ("unused_assigned_connection_is_not_left_stranded", ("C05", "C07"), z3.Or(conn.t == 0, not_pooled, usable, held_by_other, handed_over)),
+                ("removes_at_most_the_requests_own_connection", ("C04", "C06"), z3.And(z3.BoolVal(len(removed) <= 1), *[e.data["value"].t == conn.t for e in removed])),
+            ]
+
+        def exc_checks(self, c, exc):
+            return []
+
     # ================================================================== _close_connections / aclose
     @reg.contract
     class CloseConnections(Contract):
@@ -624,10 +683,24 @@ def register(reg):
                 ]
             if ev.name == "call:" + ASSIGN:
                 out.append(("assignment_pass_under_the_pool_lock", ("C08", "C07"), pool_lock_held(c, s)))
-            if ev.name == "call:" + CLOSECONNS:
-                passes = [e for e in c.events("call:" + ASSIGN) if "result" in e.data]
+            if ev.name == "call:" + RELEASE:
                 a = ev.data["args"]
-                out.append(("evicted_connections_are_closed", ("C06", "C04"), c.eng.coerce(c.st, a[0], "seq:ref:" + CI).t == passes[-1].data["result"].t if passes and a else False))
+                tl = c.since_cut(None)
+                k = max([n for n, e in enumerate(tl) if e.name == "except"], default=-1)
+                deq = [e for e in tl[k + 1:] if e.name == "list.remove" and e.data["target"] == "Pool._requests"]
+                out += [
+                    ("unused_connection_released_under_the_pool_lock", ("C08", "C05"), pool_lock_held(c, s)),
+                    ("releases_the_connection_of_its_own_request_after_dequeuing_it", ("C05", "C07"), z3.And(z3.BoolVal(len(deq) == 1), a[0].t == pr.t) if a and pr is not None and isinstance(a[0], VRef) else False),
+                ]
+            if ev.name == "call:" + CLOSECONNS:
+                # everything the clean-up under the lock took out of the pool since the last closing round: the
+                # connection released for the leaving request (if that step ran) followed by the pass's evictions
+                tl = [e for e in c.since_cut(None) if e is not ev]
+                k = max([n for n, e in enumerate(tl) if e.name == "call:" + CLOSECONNS], default=-1)
+                taken = [e.data["result"].t for e in tl[k + 1:] if e.name in ("call:" + RELEASE, "call:" + ASSIGN) and "result" in e.data]
+                a = ev.data["args"]
+                want = z3.Concat(*taken) if len(taken) > 1 else (taken[0] if taken else None)
+                out.append(("evicted_connections_are_closed", ("C06", "C04"), z3.simplify(c.eng.coerce(c.st, a[0], "seq:ref:" + CI).t == want) if want is not None and a else False))
                 out.append(("closing_happens_outside_the_pool_lock", ("C08", "C07"), not pool_lock_held(c, s)))
             if ev.name == "call:" + PR + ".wait_for_connection":
                 kwt = ev.data["kwargs"].get("timeout", ev.data["args"][0] if ev.data["args"] else NONE)
@@ -673,17 +746,17 @@ def register(reg):
             appended = [e for e in c.trace if e.name == "list.append" and e.data["target"] == "Pool._requests"]
             if not appended:
                 return out
-            tail = c.since_cut({"list.remove", "call:" + ASSIGN, "call:" + CLOSECONNS, "except"})
+            tail = c.since_cut({"list.remove", "call:" + RELEASE, "call:" + ASSIGN, "call:" + CLOSECONNS, "except"})
             i = max([k for k, e in enumerate(tail) if e.name == "except"], default=-1)
             after = [e.name.split(":")[-1].rsplit(".", 1)[-1] if e.name.startswith("call:") else e.name for e in tail[i + 1:]]
-            out.append(("failed_request_is_dequeued_then_queue_reassigned_then_evictions_closed", ("C05", "C07", "C06", "C04", "C09"), after == ["list.remove", "_assign_requests_to_connections", "_close_connections"]))
+            out.append(("failed_request_is_dequeued_then_queue_reassigned_then_evictions_closed", ("C05", "C07", "C06", "C04", "C09"), after == ["list.remove", "_release_unused_connection", "_assign_requests_to_connections", "_close_connections"]))
             # from the property (C05): a request that leaves after the pool gave it a connection which it never drove (it was
-            # cancelled at its wait) must not strand that connection - a fresh one is neither available, idle nor closed, and
-            # nobody else will ever establish it
-            if pr is not None and not c.events("ci.handle_request"):
-                conn = c.new(pr, "PR.connection")
-                usable = z3.Or(conn.t == 0, F(c, conn, "CI.avail"), F(c, conn, "CI.idle"), F(c, conn, "CI.closed"))
-                out.append(("request_leaving_with_an_unused_assigned_connection_does_not_strand_it", ("C05", "C07"), usable))
+            # cancelled, or timed out, at its wait) must not strand that connection - a fresh one is neither available, idle
+            # nor closed, and nobody else will ever establish it (design_probes/p30).  Decided modularly: the handler hands
+            # its own dequeued request to _release_unused_connection under the lock before the pass (call-site obligations
+            # above), whose contract carries `unused_assigned_connection_is_not_left_stranded`.
+            rel = [e for e in tail[i + 1:] if e.name == "call:" + RELEASE]
+            out.append(("request_leaving_with_an_unused_assigned_connection_does_not_strand_it", ("C05", "C07"), len(rel) == 1))
             return out
 
     # ================================================================== PoolByteStream
